@@ -791,7 +791,16 @@ fn cmd_acctload() {
 		let kt = str_of(&p, "key_type");
 		r.block_on(async {
 			match load_account(&p, &kt).await {
-				Ok(a) => out(&json!({"id": p.get("id"), "ok": true, "loaded": account_dump(&a)})),
+				Ok(mut a) => {
+					// optional: save the loaded account again into another (empty) directory
+					let mut resaved = Value::Null;
+					if let Some(dst) = p.get("resave_dir").and_then(|e| e.as_str()) {
+						a.file_manager.account_directory = dst.to_string();
+						let r = a.save().await;
+						resaved = json!({"ok": r.is_ok(), "err": r.err().map(|e| e.message)});
+					}
+					out(&json!({"id": p.get("id"), "ok": true, "loaded": account_dump(&a), "resaved": resaved}))
+				}
 				Err(e) => out(&json!({"id": p.get("id"), "ok": false, "err": e.message})),
 			}
 		});
